@@ -8,13 +8,15 @@ import os
 VERIF = os.path.dirname(os.path.dirname(os.path.abspath(__file__)))
 
 TIE = ('Tie to the code: the tables/functions under coq/Gen are regenerated from /repo by tools/translate.py on every run '
-       '(fail-closed, cross-checked against runtime reflection); the hand-written Gallina algorithms are tied by the '
+       '(fail-closed, cross-checked against runtime reflection); the hand-written Gallina algorithms are tied (a) by the '
        'correspondence check, which runs the extracted model and the implementation (public API) on the same generated '
-       'inputs and reports any difference; the property oracle (extracted from coq/Spec or a few obviously-right lines) is '
+       'inputs and reports any difference, and (b) by the source tie (tools/source_tie.py, source_digests.json): the '
+       'token-level text of every function of the modelled files is compared on every run with the text the model was '
+       'written against, and a difference is reported like any other broken tie; the property oracle (extracted from coq/Spec or a few obviously-right lines) is '
        'evaluated on the implementation to find a concrete failing input whenever a proof or the correspondence breaks.')
 BASE_NOTE = ('Trusted: Coq 8.16.1 kernel incl. vm_compute (no native_compute; coqchk -o in the thorough tier); theorems are '
              'closed under the global context (Print Assumptions is parsed on every run, any axiom fails the audit); '
-             'tools/translate.py; extraction with ExtrOcamlBasic only + ocaml/*.ml I/O glue; the Python harness; CPython/'
+             'tools/translate.py; tools/source_tie.py; extraction with ExtrOcamlBasic only + ocaml/*.ml I/O glue; the Python harness; CPython/'
              'bitarray/attrs primitives as modelled in coq/Prim. ')
 
 CLAIMS = {
